@@ -161,14 +161,19 @@ def enc_rows_line(coll, mode, raise_, par, guids):
     return " ".join(parts)
 
 
-def default_guids(coll, rng=None, collide=False):
+def enc_coll_body(coll, par, guids):
+    """the `<seqname> <par> <n> child*` part of a `rows` line (shared with `gfftext`)"""
+    return enc_rows_line(coll, "chrom", True, par, guids).split(" ", 3)[3]
+
+
+def default_guids(coll, rng=None, collide=False, base=0):
     """small-integer UUIDs, all distinct (or, with `collide`, drawn from a tiny pool)"""
     out = {}
     n = [0]
 
     def nxt():
         n[0] += 1
-        return guid_str(rng.randint(1, 3) if (collide and rng) else n[0])
+        return guid_str(rng.randint(1, 3) if (collide and rng) else base + n[0])
     for i, g in enumerate(coll["genes"]):
         out[("gene", i)] = nxt()
         for j, t in enumerate(g["transcripts"]):
@@ -188,6 +193,12 @@ def default_guids(coll, rng=None, collide=False):
 def parse_rows_line(tk):
     mode = tk.next()
     raise_ = tk.bool()
+    par, chunk, coll, guids = parse_coll_body(tk)
+    return mode, raise_, par, chunk, coll, guids
+
+
+def parse_coll_body(tk):
+    """<seqname|~> <N | W | K cs ce> <n> child*  ->  (par, chunk, plain collection, guids)"""
     seqname = tk.str()
     par = tk.next()
     chunk = None
@@ -240,12 +251,17 @@ def parse_rows_line(tk):
                 fc["feature_intervals"].append(f)
             coll["feature_collections"].append(fc)
     coll["genome_len"] = max(hi + 5, (chunk[1] if chunk else 0), 10)
-    return mode, raise_, par, chunk, coll, guids
+    return par, chunk, coll, guids
 
 
-def build_with_guids(coll, guids, par, chunk):
+def build_with_guids(coll, guids, par, chunk, seq=None):
     kind = {"N": "none", "W": "chrom", "K": "chunk"}[par]
-    parent = G.make_parent(kind, coll["sequence_name"] or "chr1", coll["genome_len"], chunk)
+    if seq is not None and kind != "none":
+        from inscripta.biocantor.io.parser import seq_chunk_to_parent, seq_to_parent
+        name = coll["sequence_name"] or "chr1"
+        parent = seq_to_parent(seq, seq_id=name) if kind == "chrom" else seq_chunk_to_parent(seq, name, chunk[0], chunk[1])
+    else:
+        parent = G.make_parent(kind, coll["sequence_name"] or "chr1", coll["genome_len"], chunk)
     ug = {k: uuid.UUID(v) for k, v in guids.items() if k[0] != "cds"}
     ac = G.build(coll, parent, ug)
     for (k, *ij) in [k for k in guids if k[0] == "cds"]:
@@ -310,6 +326,14 @@ def impl_gff_op(line):
                 if head != "##gff-version 3":
                     return "ok " + arm("BAD-HEADER " + head)
                 return "ok " + arm(body)
+            if op == "gfftext":
+                add_seq, ordered, chrom_rel, raise_ = tk.bool(), tk.bool(), tk.bool(), tk.bool()
+                acs = []
+                for _ in range(tk.int()):
+                    seq = tk.str()
+                    par, chunk, coll, guids = parse_coll_body(tk)
+                    acs.append(build_with_guids(coll, guids, par, chunk, seq))
+                return "ok " + arm(export_text(acs, add_seq, chrom_rel, raise_, ordered))
             if op == "coll":
                 from harness import gff_check
                 return gff_check.run_coll(tk.t[1:])
